@@ -128,7 +128,7 @@ def run(ctx):
                         "request carries no explicit extension choice (ExtensionOverride nil)"]
     fails = _validate(ctx, vectors, "grid")
     if ctx.cov["real_archive_true"] == 0:
-        ctx.notes.append("no request was marked archive by the real parser")
+        raise vlib.Infra("dead binding: the real parser never attached the archive extension to any of %d requests" % len(vectors))
     seen = {}
     for f in fails:
         seen.setdefault(f["sig"], []).append(f)
